@@ -989,6 +989,59 @@ def _must_assigned(ctx, fi: FunctionInfo, depth=0) -> Tuple[Set[str], Set[str]]:
     return must, may
 
 
+def _none_only_for_other_arity(ctx, init: FunctionInfo) -> bool:
+    """__init__(self, *args) of the form
+           x = helper(*args);  if x is None: return;  <assign all fields from x>
+    where helper returns None only after every `len(args) == k` test has failed (an undocumented argument count): the
+    early return is the fall-through of the arity dispatch, moved into a helper."""
+    if not init.vararg:
+        return False
+    body = [s_ for s_ in init.node.body if not (isinstance(s_, ast.Expr) and isinstance(s_.value, ast.Constant))]
+    if len(body) < 3 or not (isinstance(body[0], ast.Assign) and len(body[0].targets) == 1 and isinstance(body[0].targets[0], ast.Name)
+                              and isinstance(body[0].value, ast.Call) and isinstance(body[0].value.func, ast.Name)):
+        return False
+    call = body[0].value
+    if not (len(call.args) == 1 and isinstance(call.args[0], ast.Starred) and txt(call.args[0].value) == init.vararg and not call.keywords):
+        return False
+    x = body[0].targets[0].id
+    g = body[1]
+    if not (isinstance(g, ast.If) and txt(g.test) == "%s is None" % x and len(g.body) == 1 and isinstance(g.body[0], ast.Return)
+            and g.body[0].value is None and not g.orelse):
+        return False
+    b_ = init.resolve(call.func.id)
+    if b_ is None or b_.kind != "func":
+        return False
+    h = b_.target
+    if not h.vararg or h.params:
+        return False
+
+    def leaves(stmts) -> bool:
+        """every path through stmts ends in a return of a value or a raise"""
+        if not stmts:
+            return False
+        last = stmts[-1]
+        if isinstance(last, ast.Raise):
+            return True
+        if isinstance(last, ast.Return):
+            return last.value is not None and not (isinstance(last.value, ast.Constant) and last.value.value is None)
+        if isinstance(last, ast.If):
+            return bool(last.orelse) and leaves(last.body) and leaves(last.orelse)
+        return False
+
+    hb = [s_ for s_ in h.node.body if not (isinstance(s_, ast.Expr) and isinstance(s_.value, ast.Constant))]
+    seen_arity = 0
+    for st in hb:
+        if isinstance(st, ast.If) and "len(%s)" % h.vararg in txt(st.test) and not st.orelse:
+            if not leaves(st.body):
+                return False
+            seen_arity += 1
+        elif isinstance(st, ast.Return) and (st.value is None or (isinstance(st.value, ast.Constant) and st.value.value is None)):
+            continue
+        else:
+            return False
+    return seen_arity >= 1
+
+
 def r154_definite_assignment(ctx, res):
     n = 0
     for cname in ["Point", "Vector", "Line", "Plane", "Segment", "HalfLine", "ConvexPolygon", "ConvexPolyhedron", "Pyramid"]:
@@ -1035,6 +1088,8 @@ def r154_definite_assignment(ctx, res):
                         isinstance(a.value, ast.Call) and txt(a.value.func).startswith("get_main_logger()."))))
                 only_arity = not any(isinstance(g.nodes[x].ast, (ast.Assign, ast.AugAssign, ast.Expr)) and not plain_local(g.nodes[x].ast)
                                      and not harmless(g.nodes[x].ast) for x in p)
+        if not only_arity:
+            only_arity = _none_only_for_other_arity(ctx, init)
         if only_arity:
             res.ob("R15.4", init.where(), cname + ".__init__", True,
                    "fields %s are assigned on every documented form; an undocumented argument count falls through" % sorted(may),
